@@ -339,5 +339,9 @@ fn detector(cfgv: &Value, wc: WorldCfg, out: &mut impl Write) {
             emit(&mut run, &mut steps, json!({"a": "Advance", "d": rng.random_range(1..=max_interval * 2 + 1)}), out);
             emit(&mut run, &mut steps, json!({"a": "Liveness", "n": "n1"}), out);
         }
+        // ... and once certainly beyond it: phi x max(max_interval, initial_interval)
+        let bound = (wc.fd.phi * (wc.fd.max_interval.max(wc.fd.initial) as f64)).ceil() as u64 + 1;
+        emit(&mut run, &mut steps, json!({"a": "Advance", "d": bound}), out);
+        emit(&mut run, &mut steps, json!({"a": "Liveness", "n": "n1"}), out);
     }
 }
